@@ -349,6 +349,28 @@ MUTANTS = [
     ("c12-point-along-unfix-buffer", ["C12"], "LK1", H,
      "                                  like=self.proj_data,\n                                  integer_type=False)",
      "                                  like=self.proj_data)"),
+    # ---- C18 (narrow)
+    ("c18-diagonalize-unfix-flip-axis", ["C18"], "AX1", C,
+     "            order = np.flip(order, axis=-1)",
+     "            order = np.flip(order)"),
+    ("c18-arc-include-unfix-scalar", ["C18"], "SH2", C,
+     "    s_theta1 = np.where(s_theta1 < 0, s_theta1 + 2 * np.pi, s_theta1)\n",
+     "    s_theta1[s_theta1 < 0] += 2 * np.pi\n"),
+    ("c18-find-isometry-concat-axis", ["C18"], "SH2", C,
+     "    iso = np.concatenate([orth_partial, orth_kernel], axis=-2)",
+     "    iso = np.concatenate([orth_partial, orth_kernel], axis=-1)"),
+    ("c18-construct-diagonal-size", ["C18"], "SH2", C,
+     "    result = zeros(diags.shape[:-1] + (n * n,), like=diags)",
+     "    result = zeros(diags.shape[:-1] + (n + n,), like=diags)"),
+    ("c18-permute-expand-dims", ["C18"], "SH2", C,
+     "        p_ind = np.expand_dims(si, (-2, -1))",
+     "        p_ind = np.expand_dims(si, -1)"),
+    ("c18-winv-permutation-flag", ["C18"], "PA1", C,
+     "        Winv = permute_along_axis(Winv, order, axis=-2, inverse=True)",
+     "        Winv = permute_along_axis(Winv, order, axis=-2, inverse=False)"),
+    ("c18-normalize-unfix-int", ["C18"], "T3", C,
+     "    if np.issubdtype(vectors.dtype, np.integer):\n        # integer arrays cannot hold the quotient\n        vectors = vectors.astype('float64')\n\n",
+     ""),
     # ---- C15
     ("c15-drop-reflection-guard", ["C15"], "R1", H,
      "        if (np.abs(eval_differences) > ERROR_THRESHOLD).any():\n            raise GeometryError(\"Not a reflection matrix\")\n",
@@ -720,7 +742,7 @@ def run(pids=None, jobs=16, root=None, quiet=False):
                          None, None, src))
     neutral_dir = os.path.join(os.path.dirname(seeded_dir), "neutral")
     allp = ["C01", "C03", "C04", "C05", "C06", "C08", "C09", "C10", "C11",
-            "C12", "C13", "C14", "C15", "C16", "C19", "C20"]
+            "C12", "C13", "C14", "C15", "C16", "C18", "C19", "C20"]
     for nid in NEUTRAL_PATCHES:
         sel = [p for p in allp if want is None or p in want]
         if sel:
